@@ -2056,6 +2056,32 @@ func (a *Act) fireCuts(b *ssa.BasicBlock, ii int, st *State, reach string) {
 				continue
 			}
 		}
+		a.fireCut(c, instr, st, reach)
+	}
+}
+
+// fireNamedCuts: cuts whose anchor is one of the given names (call anchors)
+func (a *Act) fireNamedCuts(names []string, instr ssa.Instruction, st *State, reach string) {
+	if a.firedCuts == nil {
+		a.firedCuts = map[*Cut]bool{}
+	}
+	for _, c := range a.ct.Cuts {
+		if a.firedCuts[c] {
+			continue
+		}
+		for _, n := range names {
+			if c.Anchor == n {
+				a.fireCut(c, instr, st, reach)
+				break
+			}
+		}
+	}
+}
+
+// fireCut: the cut c takes effect after instr
+func (a *Act) fireCut(c *Cut, instr ssa.Instruction, st *State, reach string) {
+	g := a.g
+	for once := true; once; once = false {
 		if c.Let != "" {
 			func() {
 				defer wrapClauseErr(c.Cl)
@@ -2070,14 +2096,14 @@ func (a *Act) fireCuts(b *ssa.BasicBlock, ii int, st *State, reach string) {
 				a.lets[c.Let] = v
 			}()
 			a.firedCuts[c] = true
-			continue
+			break
 		}
 		if c.Use {
 			if g.eng.curModes.Post {
 				a.applyLemma(c.Cl, st, nil, reach)
 			}
 			a.firedCuts[c] = true
-			continue
+			break
 		}
 		if g.eng.curModes.Post || (a.ct != nil && len(a.ct.Loops) > 0) {
 			// (also outside post mode when the contract has loop invariants: they are obligations in every mode and may
